@@ -60,7 +60,8 @@ pub struct PanicInfo {
 impl PanicInfo {
     /// true if the panic originated in harness code (=> harness error, never a violation)
     pub fn in_harness(&self) -> bool {
-        self.loc.contains("/verif/sim/src") || self.loc.starts_with("src/")
+        // (a panic raised by the simulated transport to break a busy loop of its caller is the caller's)
+        (self.loc.contains("/verif/sim/src") || self.loc.starts_with("src/")) && !self.msg.starts_with("RUNAWAY")
     }
 }
 
